@@ -165,6 +165,22 @@ def malformed_docs():
     return docs
 
 
+def oddroot_docs():
+    """well-formed XML whose root is not an svg element"""
+    body = '<rect width="5" height="5"/><g opacity=".5"><rect width="3" height="3"/><circle r="2"/></g>'
+    docs = []
+    for tag in ("g", "defs", "symbol", "clipPath", "linearGradient", "a", "switch"):
+        docs.append((f"oddroot:{tag}", f'<{tag} {NS}>{body}</{tag}>'))
+        docs.append((f"oddroot:{tag}-empty", f'<{tag} {NS}/>'))
+    docs.append(("oddroot:rect", f'<rect {NS} width="5" height="5"/>'))
+    docs.append(("oddroot:path", f'<path {NS} d="M0,0 L5,0 L5,5 Z"/>'))
+    docs.append(("oddroot:use", f'<use {NS} xlink:href="#x"/>'))
+    docs.append(("oddroot:nons", "<svg><rect width='5' height='5'/></svg>"))
+    docs.append(("oddroot:foreign", '<html xmlns="http://www.w3.org/1999/xhtml"><body/></html>'))
+    docs.append(("oddroot:svgprefix", f'<s:svg xmlns:s="http://www.w3.org/2000/svg" viewBox="0 0 10 10"><s:rect width="5" height="5"/></s:svg>'))
+    return docs
+
+
 def _convert(doc, probe):
     from picosvg.svg import SVG
 
@@ -343,6 +359,9 @@ def cases(tier, seed):
     ch = chain_docs(tier)
     for i in range(0, len(ch), 4):
         yield {"fam": "docs", "docs": ch[i : i + 4]}
+    odd = oddroot_docs()
+    for i in range(0, len(odd), 6):
+        yield {"fam": "docs", "docs": odd[i : i + 6]}
     mal = malformed_docs()
     for i in range(0, len(mal), 25):
         yield {"fam": "docs", "docs": mal[i : i + 25]}
